@@ -30,6 +30,7 @@ build() { # build <variant>
   case "$variant" in
     std)  "$GO" build -modfile="$MODFILE" -tags verif -o "$out" ./cmd/vcheck ;;
     race) "$GO" build -modfile="$MODFILE" -race -tags verif -o "$out" ./cmd/vcheck ;;
+    wasm) GOOS=js GOARCH=wasm CGO_ENABLED=0 "$GO" build -modfile="$MODFILE" -tags verif -o "$out" ./cmd/vcheck ;;
     ovl|portable)
       local od="$BIN/overlay-$variant-$(basename "$MODFILE" .mod)"
       rm -rf "$od"; python3 "$VERIF/tools/mkoverlay.py" "$REPO" "$od" "$variant" >/dev/null || return 2
@@ -45,6 +46,7 @@ case "${1:-}" in
     build race >/dev/null || exit 2
     build ovl >/dev/null || exit 2
     build portable >/dev/null || exit 2
+    build wasm >/dev/null || exit 2
     exit 0 ;;
   replay)
     exe=$(build std) || exit 2
@@ -65,5 +67,7 @@ if [ "$prop" = "C13" ]; then
   oexe=$(build ovl) || exit 2
   pexe=$(build portable) || exit 2
   export VERIF_EXE_OVL="$oexe" VERIF_EXE_PORTABLE="$pexe"
+  wexe=$(build wasm) || exit 2
+  export VERIF_EXE_WASM="$wexe" VERIF_WASM_EXEC="$("$GO" env GOROOT)/lib/wasm/wasm_exec_node.js"
 fi
 exec "$exe" "$prop" "$tier" "$@"
